@@ -453,6 +453,10 @@ def run(ctx) -> None:
     ctx.guard(octet_length_lint, "R03.13", "jws")  # "every key of the type and curve that algorithm requires": RSA moduli / curve sizes that are not multiples of 8
     from .c04 import r04_14
     ctx.guard_as("R03.12", r04_14, "jws")  # "exactly the original header members": no member is ever removed from a header object
+    from .c07 import r07_2 as _r07_2
+    ctx.guard_as("R03.17", _r07_2)  # every member of a JSON signature is signed over ITS OWN protected header (none: the empty segment)
+    from .c11 import r11_9 as _r11_9
+    ctx.guard_as("R03.18", _r11_9)  # a key whose use / key_ops are consistent (`sig` + ["verify"]) is importable: the round trip starts with importing the peer's key
     from .c13 import r13_1 as _r13_1
     ctx.guard_as("R03.16", _r13_1)  # a key without a kid gets its thumbprint as kid: the private key that signs and the public key that verifies must get the SAME one (RFC 7638 members only)
     ctx.guard(r03_7)
